@@ -34,6 +34,7 @@
       operation arguments) — the `add`-built theorems are the special case `built_circuit_meets_spec`.
 -/
 import GraphiqModel.Proofs.MetricsHistCheck
+import GraphiqModel.Proofs.MetricsHistLongest
 import GraphiqModel.Properties.C12
 namespace Graphiq.C18
 open Graphiq Graphiq.Dag Graphiq.Metrics
@@ -303,6 +304,7 @@ structure MetricsMeetSpec (c : Dag) (ops : List Op) : Prop where
   unitary : Metrics.unitaryCount c = .ok (Spec.unitaryCount ops)
   register_depth : ∀ t, c.calculateRegDepth t = .ok ((List.range (c.regs t)).map (fun i => (Spec.regDepth ops ⟨t, i⟩ : Int)))
   depth : c.nodeIds ≠ [] → ∀ Lp, LongestPathSpec c Lp → Metrics.circuitDepthWith Lp = (Spec.depth ops : Int)
+  depth_model : c.nodeIds ≠ [] → Metrics.circuitDepth c = (Spec.depth ops : Int)
   max_emitter_depth : Metrics.maxEmitDepth c = Spec.maxEmitDepth c.nE ops
   reset_depth : Metrics.maxEmitResetDepth c = Spec.maxEmitResetDepth c.nE ops
   effective_depth : Metrics.maxEmitEffDepth c = Spec.maxEmitEffDepth c.nE ops
@@ -320,9 +322,26 @@ theorem metrics_eq_spec_on_any_schedule {c : Dag} {P : Reg → List NodeId} {L :
     unitary := unitaryCount_eq_spec_sched g hpl hS
     register_depth := calculateRegDepth_eq_spec_sched g hpl hS
     depth := fun hne _ hLp => circuitDepth_eq_spec_sched g hpl hS hne hLp
+    depth_model := fun hne => circuitDepth_model_eq_spec g hpl hS hne
     max_emitter_depth := maxEmitDepth_eq_spec_sched g hpl hS
     reset_depth := maxEmitResetDepth_eq_spec_sched g hpl hS
     effective_depth := maxEmitEffDepth_eq_spec_sched g hpl hS }
+
+/-- **the model's own longest-path computation meets the recorded networkx specification** (`Dag.longestPathLen`, the memoised
+    depth-first evaluation the driver uses for `depth`): some directed walk has that many edges and none has more — on every
+    circuit satisfying DagInv with plain operations.  So `Metrics.circuitDepth` — the value compared with the implementation's
+    `CircuitDepth` on every input — equals `Spec.depth` of any schedule (`MetricsMeetSpec.depth_model`): for the model's instance
+    no hypothesis about networkx is left. -/
+theorem model_longest_path_meets_nx_spec {c : Dag} {P : Reg → List NodeId} (g : Good c P) (hpl : AllPlain c) :
+    LongestPathSpec c c.longestPathLen := longestPathLen_spec g hpl
+
+/-- every node of such a circuit has a `_max_depth` value, and the literal un-memoised recursion returns it with the model's fuel
+    (`len(nodes) + 1`) — termination of `_max_depth` on every reachable circuit -/
+theorem max_depth_terminates_on_every_node {c : Dag} {P : Reg → List NodeId} (g : Good c P) (hpl : AllPlain c) :
+    ∀ n ∈ c.nodeIds, ∃ d : Int, c.maxDepth (c.nodes.length + 1) n = .ok d := by
+  intro n hn
+  obtain ⟨d, hd, hb⟩ := all_hasDepth g hpl n hn
+  exact ⟨d, maxDepth_of_hasDepth hd _ (by push_cast; omega)⟩
 
 /-- … in particular with the operations in ANY topological order (what `sequence()` hands to the compilers) -/
 theorem metrics_eq_spec_in_any_topological_order {c : Dag} {P : Reg → List NodeId} (g : Good c P) (hpl : AllPlain c)
@@ -560,6 +579,7 @@ example : (Metrics.maxEmitDepth histCircuit).toOption = some 4 ∧ (Spec.maxEmit
     (Spec.maxEmitResetDepth 2 (histSchedule.map (·.2))).toOption = some 3 := by decide
 example : (Metrics.maxEmitEffDepth histCircuit).toOption = some 3 ∧
     (Spec.maxEmitEffDepth 2 (histSchedule.map (·.2))).toOption = some 3 := by decide
+example : Metrics.circuitDepth histCircuit = 6 := by decide
 example : histCircuit.registerDepth.toOption = some ([2, 6], [3], [0]) ∧
     (List.range 2).map (fun i => Spec.regDepth (histSchedule.map (·.2)) ⟨.e, i⟩) = [2, 6] ∧
     Spec.regDepth (histSchedule.map (·.2)) ⟨.c, 0⟩ = 0 ∧ Spec.depth (histSchedule.map (·.2)) = 6 := by decide
